@@ -346,6 +346,9 @@ class Statement(object):
             if self.pcr_size_hint == 4:
                 # two's complement at 16 bits: a negative NumericValue is only widened below -128
                 jump_amount &= 0xFFFF
+            elif not -128 <= jump_amount <= 127:
+                # the sizes were estimated without a later ORG in between
+                raise TranslationError("PC relative target out of range of the 8-bit offset", self)
             self.code_pkg.additional = NumericValue(jump_amount, size_hint=self.pcr_size_hint)
 
     def fit_operand_width(self):
